@@ -321,51 +321,86 @@ def approxEq (a b scale : Rat) : Bool := a == b || absR (a - b) * 1099511627776 
 
 def sumAbs (r : List Rat) : Rat := (r.map absR).foldl (· + ·) 0
 
+/-! the clauses, one definition each (so that each can be proved of the model on its own) -/
+namespace Cl
+def nO (o : Observed) : Nat := o.obsIds.length
+def nS (o : Observed) : Nat := o.sampIds.length
+def nonEmpty (o : Observed) : Bool := decide (nO o > 0) && decide (nS o > 0)
+def col (o : Observed) (j : Nat) : List Rat := colAt o.dense j
+def expNonzero (o : Observed) : List (Id × Id) :=
+  (o.obsIds.zip o.dense).flatMap (fun (oi, r) =>
+    (o.sampIds.zip r).filterMap (fun (si, v) => if v != 0 then some (oi, si) else none))
+def expPairs (ids : List Id) : List (Id × Id) :=
+  (List.range ids.length).flatMap (fun i => ((List.range ids.length).filter (· > i)).filterMap (fun j =>
+    match ids[i]?, ids[j]? with | some a, some b => some (a, b) | _, _ => none))
+
+def answers (o : Observed) : Bool := o.accessorErrors.isEmpty
+def shape (o : Observed) : Bool := o.shape == (nO o, nS o)
+def denseShape (o : Observed) : Bool := o.dense.length == nO o && o.dense.all (·.length == nS o)
+def uniqObs (o : Observed) : Bool := !hasDup o.obsIds
+def uniqSamp (o : Observed) : Bool := !hasDup o.sampIds
+def idxObs (o : Observed) : Bool := o.indexObs == (List.range (nO o)).map some
+def idxSamp (o : Observed) : Bool := o.indexSamp == (List.range (nS o)).map some
+def existsAll (o : Observed) : Bool :=
+  o.existsObs.all id && o.existsSamp.all id && o.existsObs.length == nO o && o.existsSamp.length == nS o
+def probes (o : Observed) : Bool := o.probesUnknown.all id
+def omd (o : Observed) : Bool := match o.omdLen with | none => true | some l => l == nO o
+def smd (o : Observed) : Bool := match o.smdLen with | none => true | some l => l == nS o
+def dataObs (o : Observed) : Bool := !nonEmpty o || o.dataObs == o.dense
+def dataSamp (o : Observed) : Bool := !nonEmpty o || o.dataSamp == (List.range (nS o)).map (col o)
+def cells (o : Observed) : Bool := !nonEmpty o || o.cells == o.dense
+def iterObs (o : Observed) : Bool := !nonEmpty o || o.iterObs == o.obsIds.zip o.dense
+def iterSamp (o : Observed) : Bool := !nonEmpty o || o.iterSamp == o.sampIds.zip ((List.range (nS o)).map (col o))
+def pairRows (o : Observed) : Bool := !nonEmpty o ||
+  o.pairwiseObs.all (fun (a, b) => lookupBy o.obsIds o.dense a.1 == some a.2 && lookupBy o.obsIds o.dense b.1 == some b.2)
+def pairList (o : Observed) : Bool := !nonEmpty o || o.pairwiseObs.map (fun (a, b) => (a.1, b.1)) == expPairs o.obsIds
+def nonzero (o : Observed) : Bool := !nonEmpty o ||
+  (o.nonzero.all ((expNonzero o).contains ·) && (expNonzero o).all (o.nonzero.contains ·) &&
+    o.nonzero.length == (expNonzero o).length)
+def sumWhole (o : Observed) : Bool := approxEq o.sumWhole (sumRow (o.dense.map sumRow)) (sumAbs (o.dense.map sumAbs))
+def sumObs (o : Observed) : Bool := o.sumObs.length == nO o &&
+  (o.sumObs.zip o.dense).all (fun (x, r) => approxEq x (sumRow r) (sumAbs r))
+def sumSamp (o : Observed) : Bool := o.sumSamp.length == nS o &&
+  (o.sumSamp.zip ((List.range (nS o)).map (col o))).all (fun (x, c) => approxEq x (sumRow c) (sumAbs c))
+def nnz (o : Observed) : Bool := o.nnz == (expNonzero o).length
+def nzcObs (o : Observed) : Bool := o.nzcObs == o.dense.map (fun r => (r.filter (· != 0)).length)
+def nzcSamp (o : Observed) : Bool := o.nzcSamp == (List.range (nS o)).map (fun j => ((col o j).filter (· != 0)).length)
+def density (o : Observed) : Bool :=
+  if nonEmpty o then approxEq (o.density * ((nO o * nS o : Nat) : Rat)) ((expNonzero o).length : Rat) ((expNonzero o).length : Rat)
+  else o.density == 0
+end Cl
+
+/-- the named clauses of the property, in the order they are reported -/
+def clauses (o : Observed) : List (String × Bool) := [
+  ("every accessor answers", Cl.answers o),
+  ("shape = (|obs ids|, |sample ids|)", Cl.shape o),
+  ("dense matrix has the declared shape", Cl.denseShape o),
+  ("observation ids unique", Cl.uniqObs o),
+  ("sample ids unique", Cl.uniqSamp o),
+  ("index(obs id) = its position", Cl.idxObs o),
+  ("index(sample id) = its position", Cl.idxSamp o),
+  ("exists true on every id", Cl.existsAll o),
+  ("unknown ids reported unknown", Cl.probes o),
+  ("observation metadata one entry per id", Cl.omd o),
+  ("sample metadata one entry per id", Cl.smd o),
+  ("data(obs id) = its row", Cl.dataObs o),
+  ("data(sample id) = its column", Cl.dataSamp o),
+  ("get_value_by_ids = the cell", Cl.cells o),
+  ("iter(observation) yields every id with its row, in order", Cl.iterObs o),
+  ("iter(sample) yields every id with its column, in order", Cl.iterSamp o),
+  ("iter_pairwise(observation) pairs carry their own rows", Cl.pairRows o),
+  ("iter_pairwise(observation) lists every unordered pair once", Cl.pairList o),
+  ("nonzero() lists exactly the non-zero cells", Cl.nonzero o),
+  ("sum(whole)", Cl.sumWhole o),
+  ("sum(observation)", Cl.sumObs o),
+  ("sum(sample)", Cl.sumSamp o),
+  ("nnz", Cl.nnz o),
+  ("nonzero_counts(observation)", Cl.nzcObs o),
+  ("nonzero_counts(sample)", Cl.nzcSamp o),
+  ("density = nnz / (N*M)", Cl.density o)]
+
 open Codec in
-def holds (o : Observed) : Verdict :=
-  let n := o.obsIds.length
-  let m := o.sampIds.length
-  let nonEmpty := n > 0 && m > 0
-  let grid := o.dense
-  let col (j : Nat) := colAt grid j
-  let expNonzero := (o.obsIds.zip grid).flatMap (fun (oi, r) =>
-      (o.sampIds.zip r).filterMap (fun (si, v) => if v != 0 then some (oi, si) else none))
-  let expNnz := expNonzero.length
-  allV [
-    chk "every accessor answers" o.accessorErrors.isEmpty,
-    chk "shape = (|obs ids|, |sample ids|)" (o.shape == (n, m)),
-    chk "dense matrix has the declared shape" (grid.length == n && grid.all (·.length == m)),
-    chk "observation ids unique" (!hasDup o.obsIds),
-    chk "sample ids unique" (!hasDup o.sampIds),
-    chk "index(obs id) = its position" (o.indexObs == (List.range n).map some),
-    chk "index(sample id) = its position" (o.indexSamp == (List.range m).map some),
-    chk "exists true on every id" (o.existsObs.all id && o.existsSamp.all id && o.existsObs.length == n && o.existsSamp.length == m),
-    chk "unknown ids reported unknown" (o.probesUnknown.all id),
-    chk "observation metadata one entry per id" (match o.omdLen with | none => true | some l => l == n),
-    chk "sample metadata one entry per id" (match o.smdLen with | none => true | some l => l == m),
-    chk "data(obs id) = its row" (!nonEmpty || o.dataObs == grid),
-    chk "data(sample id) = its column" (!nonEmpty || o.dataSamp == (List.range m).map col),
-    chk "get_value_by_ids = the cell" (!nonEmpty || o.cells == grid),
-    chk "iter(observation) yields every id with its row, in order" (!nonEmpty || o.iterObs == o.obsIds.zip grid),
-    chk "iter(sample) yields every id with its column, in order" (!nonEmpty || o.iterSamp == o.sampIds.zip ((List.range m).map col)),
-    chk "iter_pairwise(observation) pairs carry their own rows" (!nonEmpty ||
-      o.pairwiseObs.all (fun (a, b) => lookupBy o.obsIds grid a.1 == some a.2 && lookupBy o.obsIds grid b.1 == some b.2)),
-    chk "iter_pairwise(observation) lists every unordered pair once"
-      (!nonEmpty || o.pairwiseObs.map (fun (a, b) => (a.1, b.1)) ==
-        (List.range n).flatMap (fun i => ((List.range n).filter (· > i)).filterMap (fun j =>
-          match o.obsIds[i]?, o.obsIds[j]? with | some a, some b => some (a, b) | _, _ => none))),
-    chk "nonzero() lists exactly the non-zero cells" (!nonEmpty ||
-      (o.nonzero.all (expNonzero.contains ·) && expNonzero.all (o.nonzero.contains ·) && o.nonzero.length == expNnz)),
-    chk "sum(whole)" (approxEq o.sumWhole (sumRow (grid.map sumRow)) (sumAbs (grid.map sumAbs))),
-    chk "sum(observation)" (o.sumObs.length == n &&
-      (o.sumObs.zip grid).all (fun (x, r) => approxEq x (sumRow r) (sumAbs r))),
-    chk "sum(sample)" (o.sumSamp.length == m &&
-      (o.sumSamp.zip ((List.range m).map col)).all (fun (x, c) => approxEq x (sumRow c) (sumAbs c))),
-    chk "nnz" (o.nnz == expNnz),
-    chk "nonzero_counts(observation)" (o.nzcObs == grid.map (fun r => (r.filter (· != 0)).length)),
-    chk "nonzero_counts(sample)" (o.nzcSamp == (List.range m).map (fun j => ((col j).filter (· != 0)).length)),
-    chk "density = nnz / (N*M)" (if nonEmpty then approxEq (o.density * ((n * m : Nat) : Rat)) (expNnz : Rat) (expNnz : Rat) else o.density == 0)
-  ]
+def holds (o : Observed) : Verdict := allV ((clauses o).map (fun cb => chk cb.1 cb.2))
 
 /-- what the model's accessors report for a state -/
 def observe (s : TState) (unknownProbes : List (Axis × Id)) : Observed :=
@@ -395,7 +430,7 @@ def observe (s : TState) (unknownProbes : List (Axis × Id)) : Observed :=
     sumWhole := sumWhole s, sumObs := sumObs s, sumSamp := sumSamp s, nnz := nnzAcc s,
     nzcObs := s.rows.map (fun r => (r.filter (· != 0)).length),
     nzcSamp := (List.range s.ncols).map (fun j => ((colAt s.rows j).filter (· != 0)).length),
-    density := if s.obs.ids.isEmpty || s.samp.ids.isEmpty then 0 else (nnzAcc s : Rat) / ((s.samp.ids.length * s.obs.ids.length : Nat) : Rat) }
+    density := if s.obs.ids.isEmpty || s.samp.ids.isEmpty then 0 else (nnzAcc s : Rat) / ((s.obs.ids.length * s.samp.ids.length : Nat) : Rat) }
 
 end Biom.C05
 
